@@ -743,4 +743,29 @@ theorem hashStream_size {img : Bytes} {f : PeFacts} {p : Parsed} (h : parse img 
 
 end Impl
 
+/-! ### GUID text and byte forms -/
+
+theorem decodeHex_length_le (s : List Char) : 2 * (decodeHex s).length ≤ s.length := by
+  induction s using decodeHex.induct with
+  | case1 a b r x y hx hy ih => simp only [decodeHex, hx, hy, List.length_cons]; omega
+  | case2 a b r h => 
+    unfold decodeHex
+    split
+    · rename_i x y hx hy; exact absurd hy (h x y hx)
+    · simp
+  | case3 s h => 
+    unfold decodeHex
+    split
+    · rename_i a b r; exact absurd rfl (h a b r)
+    · simp
+
+theorem bytesToGuid_wf_all (bs : Bytes) : (bytesToGuid bs).WF := by
+  by_cases h : 16 ≤ bs.length
+  · exact bytesToGuid_wf bs h
+  · unfold bytesToGuid
+    rw [if_pos (by omega)]
+    decide
+
+theorem stringToGuid_wf (s : List Char) : (stringToGuid s).WF := bytesToGuid_wf_all _
+
 end GoUefi
